@@ -10,6 +10,7 @@ for n in $LIST; do
   if ! ( cd "$D/wt" && git apply "$S/patch.diff" ) 2>/dev/null; then echo "$n NOAPPLY"; git -C /repo worktree remove --force "$D/wt"; rm -rf "$D"; continue; fi
   T=$(cd "$D/wt" && PYTHONPATH="$D/wt/src" /venv/bin/python -m pytest -q -p no:cacheprovider 2>&1 | tail -1)
   CHECKS=$(python3 -c "import json;print(json.load(open('$S/meta.json'))['detected_by'].replace('+',' '))")
+  [ "$CHECKS" = "none" ] && { echo "$n open (not detected)"; git -C /repo worktree remove --force "$D/wt"; rm -rf "$D"; continue; }
   R=""
   for c in $CHECKS; do
     if DIAMETER_SRC="$D/wt/src" timeout 3000 ./check $c --tier quick 2>&1 | grep -q "^VIOLATION"; then R="$R $c:caught"; else R="$R $c:MISSED"; fi
